@@ -26,6 +26,7 @@ import (
 	"github.com/projecteru2/core/store/etcdv3/embedded"
 	"github.com/projecteru2/core/types"
 	"github.com/projecteru2/core/wal"
+	"github.com/projecteru2/core/wal/kv"
 
 	"verif/internal/vengine"
 )
@@ -456,4 +457,30 @@ func (w *World) Quiesce(timeout time.Duration) bool {
 		time.Sleep(time.Millisecond)
 	}
 	return false
+}
+
+// WALEvents closes the WAL of the current instance and scans its bbolt file with the exported
+// kv.Lithium: returns "type" of every event still stored. The world cannot log afterwards.
+func (w *World) WALEvents() ([]string, error) {
+	_ = w.RawWAL.Close()
+	l := kv.NewLithium()
+	if err := l.Open(w.Cfg.WALFile, 0o600, 5*time.Second); err != nil {
+		return nil, err
+	}
+	defer l.Close()
+	ch, abort := l.Scan([]byte("/events/"))
+	defer abort()
+	var out []string
+	for e := range ch {
+		if e.Error() != nil {
+			return out, e.Error()
+		}
+		_, v := e.Pair()
+		var ev struct {
+			Type string `json:"type"`
+		}
+		_ = json.Unmarshal(v, &ev)
+		out = append(out, ev.Type)
+	}
+	return out, nil
 }
